@@ -154,7 +154,8 @@ func run(s session, rng *lib.Rng) (res result) {
 			}
 			break
 		}
-		res.read = append(res.read, append([]byte{}, ctx.Payload...))
+		// keep the returned slice (no copy): payloads are compared only after the whole session was read back
+		res.read = append(res.read, ctx.Payload)
 	}
 	res.chunks = rc.got
 	return
@@ -276,7 +277,7 @@ func main() {
 		"conn.Read chunking bytewise / 1..7 / mixed / all-at-once. Coq-judged sessions keep the wire <= 4 KiB (<= 1.5 KiB when encrypted: one AES table row per wire byte). " +
 		"A few sessions are outside Encoder.Write's contract (empty payload, payload without a packet id). distinct = distinct case term; " +
 		"non-trivial = the session compresses at least one payload, or is encrypted, or is split into more than one chunk. " +
-		"Large payloads (up to 2^21-1 bytes) run through the implementation only and are compared in Go as (length, sha256), see coverage.big_sessions."
+		"The payload slices ReadPacket returned are kept without copying and compared only after the whole session was read. Large payloads (up to 2^21-1 bytes) run through the implementation only and are compared in Go as (length, sha256), see coverage.big_sessions."
 
 	n := f.Count(150)
 	for i := 0; i < n; i++ {
